@@ -170,3 +170,31 @@ package p2p
 //@   props C18 C08
 //@   aborts when [empty-message-confined-by-recover] len(bz) == 0
 //@   atcall ReadBinary assert [decode-is-size-limited] arg_lmt == maxPexMessageSize && arg_lmt > 0
+
+// ---------------------------------------------------------------------------------------------
+// frame nonces (C20): a nonce is a 24-byte big-endian counter; every frame advances it by exactly 2 (mod 2^192), so a
+// (key, nonce) pair is never reused within 2^191 frames of a direction and a replayed frame does not decrypt
+
+//@ define nonceVal(a IntIntArr) Int = a[0]*24519928653854221733733552434404946937899825954937634816 + a[1]*95780971304118053647396689196894323976171195136475136 + a[2]*374144419156711147060143317175368453031918731001856 + a[3]*1461501637330902918203684832716283019655932542976 + a[4]*5708990770823839524233143877797980545530986496 + a[5]*22300745198530623141535718272648361505980416 + a[6]*87112285931760246646623899502532662132736 + a[7]*340282366920938463463374607431768211456 + a[8]*1329227995784915872903807060280344576 + a[9]*5192296858534827628530496329220096 + a[10]*20282409603651670423947251286016 + a[11]*79228162514264337593543950336 + a[12]*309485009821345068724781056 + a[13]*1208925819614629174706176 + a[14]*4722366482869645213696 + a[15]*18446744073709551616 + a[16]*72057594037927936 + a[17]*281474976710656 + a[18]*1099511627776 + a[19]*4294967296 + a[20]*16777216 + a[21]*65536 + a[22]*256 + a[23]*1
+//@ define pow256(k Int) Int = ite(k == 0, 1, ite(k == 1, 256, ite(k == 2, 65536, ite(k == 3, 16777216, ite(k == 4, 4294967296, ite(k == 5, 1099511627776, ite(k == 6, 281474976710656, ite(k == 7, 72057594037927936, ite(k == 8, 18446744073709551616, ite(k == 9, 4722366482869645213696, ite(k == 10, 1208925819614629174706176, ite(k == 11, 309485009821345068724781056, ite(k == 12, 79228162514264337593543950336, ite(k == 13, 20282409603651670423947251286016, ite(k == 14, 5192296858534827628530496329220096, ite(k == 15, 1329227995784915872903807060280344576, ite(k == 16, 340282366920938463463374607431768211456, ite(k == 17, 87112285931760246646623899502532662132736, ite(k == 18, 22300745198530623141535718272648361505980416, ite(k == 19, 5708990770823839524233143877797980545530986496, ite(k == 20, 1461501637330902918203684832716283019655932542976, ite(k == 21, 374144419156711147060143317175368453031918731001856, ite(k == 22, 95780971304118053647396689196894323976171195136475136, ite(k == 23, 24519928653854221733733552434404946937899825954937634816, ite(k == 24, 6277101735386680763835789423207666416102355444464034512896, 0)))))))))))))))))))))))))
+
+//@ pred byteArr24(a IntIntArr) = forall(j, 0, 24, 0 <= a[j] && a[j] <= 255)
+
+//@ func incrNonce
+//@   props C20
+//@   requires nonce != nil
+//@   invariant-assumed byteArr24(*nonce)
+//@   assigns  *nonce
+//@   ensures  byteArr24(*nonce)
+//@   loop 0 invariant byteArr24(*nonce)
+//@   ensures  [big-endian-increment-by-one] nonceVal(*nonce) == (old(nonceVal(*nonce)) + 1) % 6277101735386680763835789423207666416102355444464034512896
+//@   loop 0 invariant -1 <= i && i <= 23
+//@   loop 0 invariant forall(j, 0, i + 1, (*nonce)[j] == old((*nonce)[j])) && forall(j, i + 1, 24, (*nonce)[j] == 0 && old((*nonce)[j]) == 255)
+//@   loop 0 invariant nonceVal(*nonce) == old(nonceVal(*nonce)) - (pow256(23 - i) - 1)
+
+//@ func incr2Nonce
+//@   props C20
+//@   requires nonce != nil
+//@   invariant-assumed byteArr24(*nonce)
+//@   assigns  *nonce
+//@   ensures  [nonce-advances-by-exactly-two] nonceVal(*nonce) == (old(nonceVal(*nonce)) + 2) % 6277101735386680763835789423207666416102355444464034512896
